@@ -651,6 +651,10 @@ def main():
     gate_admits = (before(g_load, [r"\.\s*get_element\s*\(", r"\.\s*element_at\s*\("], adm)
                    and before(g_cand, r"\.\s*elements_at\s*\(", adm)
                    and re.search(r"\bmay_read\s*\([^;]*?\)\s*\?", g_admit, re.S) is not None
+                   # asked for EVERY element: nothing conditional, no lookup and no early return stands between the entry of
+                   # `admit` and its one `may_read` call (a remembered decision would show up exactly there)
+                   and len(re.findall(r"\bmay_read\s*\(", g_admit)) == 1
+                   and not re.search(r"\breturn\b|\bif\b|\bmatch\b|\.\s*get\s*\(|contains_key|\.\s*entry\s*\(|\.\s*insert\s*\(", g_admit[:max(0, first_pos(g_admit, r"\bmay_read\s*\("))])
                    and before(g_admit, r"\bmay_read\s*\(", r"\bview::render\s*\(")
                    and before(g_admit, r"\bview::render\s*\(", r"\bredact::apply\s*\("))
 
